@@ -370,7 +370,7 @@ def run_real(case):
                             w.write(bad)
                             obs["poison_accepted"] = True
                         except (ValueError, OverflowError):
-                            pass
+                            obs.setdefault("failed_before", []).append(i)
                     w.write(x)
                 w.flush()
             finally:
@@ -578,6 +578,18 @@ def model_op(case, obs):
         return {"op": "b64", "hex": case["hex"]}
     if obs.get("model_records") is None or "write" in obs or "build" in obs or "docs" not in obs:
         return None
+    fb = obs.get("failed_before")
+    if fb and not obs.get("poison_accepted"):
+        # failing writes (C14_stream_roundtrip_failed_writes): the attempt on record i that raised is the same record
+        # as far as the model is concerned (same descriptor; the values of a failed write never reach the file)
+        recs, fails = [], []
+        for i, mr in enumerate(obs["model_records"]):
+            if i in fb:
+                recs.append(mr)
+                fails.append(True)
+            recs.append(mr)
+            fails.append(False)
+        return {"op": "c14", "descriptors": _on(case), "records": recs, "fails": fails, "hashes": obs["hashes"]}
     return {"op": "c14", "descriptors": _on(case), "records": obs["model_records"], "hashes": obs["hashes"]}
 
 
